@@ -5,6 +5,7 @@ import (
 	"fmt"
 	"reflect"
 	"strings"
+	"time"
 
 	hessian "github.com/vogo/gohessian"
 
@@ -23,6 +24,11 @@ type R11b struct {
 	In R11
 	P  *R11
 	Q  *R11
+}
+type R11c struct {
+	M map[string]int32
+	L []int32
+	T time.Time
 }
 type R11bad struct {
 	A int32
@@ -64,11 +70,13 @@ func newWorld() *world {
 	add("[]string", []string{"a", "b"})
 	add("long string", strings.Repeat("s", 2100))
 	add("Inner", zoo.Inner{A: 3, S: "in"})
+	add("empty []int32", []int32{})
+	add("nil map + empty slice in a struct", &R11c{})
 	add("unencodable(chan in 3rd field)", &R11bad{A: 1, B: "b", C: make(chan int)})
 	w.tm, w.nm = unionMaps(w.vals...)
 	// byte strings: the library's own renderings plus reference renderings that only resolve against stale tables
 	addB := func(n string, b []byte) { w.bins = append(w.bins, b); w.bnames = append(w.bnames, n) }
-	for i := 0; i < 8; i++ {
+	for i := 0; i < len(w.vals)-1; i++ {
 		b, err := hessian.ToBytes(w.vals[i], copyNameMap(w.nm))
 		if err != nil {
 			panic(err)
@@ -295,7 +303,7 @@ func ops11(kind int, w *world) []op11 {
 				return decRes(v, err, p)
 			}})
 		}
-		for _, bi := range []int{1, 2, 8} {
+		for _, bi := range []int{1, 2, 10} {
 			bi := bi
 			ops = append(ops, op11{"ReadFrom(reader) " + w.bnames[bi], true, func(in *inst11) string {
 				in.sr = guard.NewReader(w.bins[bi])
